@@ -33,7 +33,10 @@ RULE = ("cover-labelled networks of 1-5 motifs (edge, path, triangle, 4-cycle, d
         "the exact iterate at phi = 1 has <= 12000-bit denominators; queries: phi = 1 always, plus 0, 1/8..7/8 and "
         "1 - 2^-k (k = 10, 20, 30, 52) where a cost estimate lets the exact model follow; phi passed as float / int / "
         "np.float64 / np.int64, iterations as int / np.int64 / np.int32 (also in 40% of the ordinary cases; in the ordinary "
-        "cases a query whose exact evaluation is estimated above ~1.5 s is dropped, at least one is kept). "
+        "cases a query whose exact evaluation is estimated above ~1.5 s is dropped, at least one is kept). COVER LABELS: the integer key of '<key>-[vertices]-[edges]-<uid>' "
+        "names the topology: cliques by size (default), and in half of the ordinary / 40% of the deep cases and 4 corpus cases "
+        "cliques by their EDGE COUNT, topologies numbered from 0, or arbitrary large numbers; vertex / edge literals spelled as "
+        "list, tuple, without spaces, edges as lists. "
         "Non-trivial = at least two motifs share a vertex, iterations >= 1 and some 0 < phi < 1 (or phi = 1 with >= 4 "
         "sweeps); distinct by (motifs, order, T, phis, number types)")
 EXHAUSTIVE = {"quick": False, "thorough": False}
@@ -433,6 +436,10 @@ def corpus():
         out.append(dict(c, T=T, phis=[[1, 2], [3, 4], [1, 1], [0, 1], [1, 4]]))
         c = _build(rng, ["triangle", "cycle4", "diamond"], range(12), glue="ring", p2=0.0)
         out.append(dict(c, T=T, phis=[[1, 2], [3, 4]]))
+    # covers whose keys are not the motif sizes (edge count / index from 0 / arbitrary), literals spelled differently
+    for km, fmt in (("edges", None), ("index0", "tuple"), ("big", "tight"), ("edges", "mixed")):
+        c = _build(rng, ["k4", "edge", "triangle", "cycle4"], range(14), glue="chain")
+        out.append(dict(c, T=2, phis=[[1, 2], [3, 8]], keymode=km, fmt=fmt))
     # T = 0 and the empty network
     c = _build(rng, ["triangle", "edge"], range(5), glue="chain")
     out.append(dict(c, T=0, phis=[[1, 2], [1, 4]]))
@@ -471,14 +478,55 @@ def generate(rng, tier):
             case["ptypes"] = [rng.choice(PTYPES_INT) if p[1] == 1 else rng.choice(["float", "np.float64"])
                               for p in case["phis"]]
             case["ttype"] = rng.choice(["int", "np.int64", "np.int32"])
+        if rng.random() < 0.5:
+            case["keymode"] = rng.choice(KEYMODES[1:])
+        if rng.random() < 0.4:
+            case["fmt"] = rng.choice(FMTS[1:])
         yield _trim(case)
     for _ in range(2 if tier == "quick" else 10):
         yield {"motifs": [], "nodes": [], "insert": [], "T": rng.randint(0, 2), "phis": [[1, 2]]}
     for _ in range(18 if tier == "quick" else 200):
-        yield _deep_case(rng)
+        c = _deep_case(rng)
+        if rng.random() < 0.4:
+            c["keymode"] = rng.choice(KEYMODES[1:])
+            c["fmt"] = rng.choice(FMTS)
+        yield c
 
 
 # ----------------------------------------------------------------- implementation side
+KEYMODES = [None, "edges", "index0", "big"]
+FMTS = [None, "tight", "tuple", "mixed"]
+
+
+def _label(case, m):
+    """the cover label "<key>-[vertices]-[edges]-<uid>".  The key is an integer NAMING the topology (nothing says it
+    is the motif's size): case["keymode"] None = TOPO_KEY (cliques by size), "edges" = cliques by their number of
+    edges, "index0" = topologies numbered from 0 in the order of their TOPO_KEY, "big" = arbitrary large numbers;
+    case["fmt"] = spelling of the vertex / edge literals (all read alike by ast.literal_eval)."""
+    km, fmt = case.get("keymode"), case.get("fmt")
+    key = m["key"]
+    n, e = len(m["verts"]), len(m["edges"])
+    if km == "edges":
+        key = e if e == n * (n - 1) // 2 else 100 + key
+    elif km == "index0":
+        key = sorted({x["key"] for x in case["motifs"]}).index(key)
+    elif km == "big":
+        key = 1000 + 37 * key
+    vs = [int(v) for v in m["verts"]]
+    es = [(int(a), int(b)) for a, b in m["edges"]]
+    if fmt == "tight":
+        vtxt = "[" + ",".join(map(str, vs)) + "]"
+        etxt = "[" + ",".join("(%d,%d)" % x for x in es) + "]"
+    elif fmt == "tuple":
+        vtxt = str(tuple(vs))
+        etxt = str(tuple(es)) if len(es) > 1 else "[" + str(es[0]) + "]"
+    elif fmt == "mixed":
+        vtxt, etxt = str(vs), str([list(x) for x in es])
+    else:
+        vtxt, etxt = str(vs), str(es)
+    return f"{key}-{vtxt}-{etxt}-{m['id']}"
+
+
 def _mk_graph(case):
     import networkx as nx
     G = nx.Graph(note="net")
@@ -486,7 +534,7 @@ def _mk_graph(case):
     nx.set_node_attributes(G, {v: f"v{v}" for v in case["nodes"]}, "lab")
     labels = {}
     for m in case["motifs"]:
-        labels[m["id"]] = f"{m['key']}-{list(m['verts'])}-{[tuple(e) for e in m['edges']]}-{m['id']}"
+        labels[m["id"]] = _label(case, m)
     for k, (a, b, mid) in enumerate(case["insert"]):
         G.add_edge(a, b, CoverLabel=labels[mid], w=k)
     return G
@@ -643,7 +691,8 @@ def nontrivial_key(case, impl_obs):
         return None
     if not any(0 < Fraction(*p) < 1 or (p[0] == p[1] and _T(case) >= 4) for p in case["phis"]):
         return None
-    return [case["motifs"], case["insert"], case["nodes"], case["T"], case["phis"], case.get("ptypes"), case.get("ttype")]
+    return [case["motifs"], case["insert"], case["nodes"], case["T"], case["phis"], case.get("ptypes"), case.get("ttype"),
+            case.get("keymode"), case.get("fmt")]
 
 
 def shrink(case):
@@ -664,11 +713,14 @@ def shrink(case):
         yield dict(case, T=case["T"] - 1)
     if case.get("decoy"):
         yield dict(case, decoy=False)
+    if case.get("fmt"):
+        yield dict(case, fmt=None)
 
 
 def describe(case, impl_obs):
     d = {"motifs": [(m["key"], m["verts"]) for m in case["motifs"]], "T": case["T"], "phis": case["phis"],
-         "phi_types": case.get("ptypes"), "iterations_type": case.get("ttype", "int")}
+         "phi_types": case.get("ptypes"), "iterations_type": case.get("ttype", "int"),
+         "keys": case.get("keymode") or "TOPO_KEY", "label_literals": case.get("fmt") or "list"}
     if not core.is_exc(impl_obs):
         d["values"] = [float(Fraction(*v)) for v in impl_obs["hist"]]
         d["sweep_order"] = impl_obs["sweep"][:8]
